@@ -38,9 +38,9 @@ RULE = (
     "a dataset is non-trivial when it has >= 1 row (data branches of the conditionals are exercised); distinct = (dataset, D, script)"
 )
 BOUNDS = {
-    "quick": {"max_rows": 2, "D": [1, 2], "sweeps": 3, "deviation_bound": 0, "deviation_datasets": 0,
+    "quick": {"max_rows": 2, "D": [1, 2], "sweeps": "3, then reset_model() and 1 more", "deviation_bound": 0, "deviation_datasets": 0,
               "whole_run_scripts": "default pattern; every gamma draw x0.002; every gamma draw x500 (precisions driven into both clipping bounds)"},
-    "thorough": {"max_rows": 3, "D": [1, 2, 3], "sweeps": 3, "deviation_bound": 1, "deviation_datasets": "all datasets with <= 2 rows, D=2",
+    "thorough": {"max_rows": 3, "D": [1, 2, 3], "sweeps": "3, then reset_model() and 1 more", "deviation_bound": 1, "deviation_datasets": "all datasets with <= 2 rows, D=2",
                  "whole_run_scripts": "as quick"},
 }
 ASSUMPTIONS = [
@@ -517,7 +517,11 @@ def execute(ds, D, deviation, sweeps):
 
     n_blocks = 0
     with Patches(rec):
-        for s in range(sweeps):
+        for s in range(sweeps + 1):
+            if s == sweeps:
+                # a second run on the same model object, as sampling.sample does it: reset, then step again.
+                # Every clause must hold from the reset state too (nothing may survive the reset in a cache).
+                model.reset_model()
             del order[:]
             n0 = len(rec.records)
             model.step()
@@ -634,7 +638,7 @@ def run_one(col, ds, D, deviation, sweeps):
 
 def run_item(item, col, tier):
     b = BOUNDS[tier]
-    sweeps = b["sweeps"]
+    sweeps = 3
     if item["kind"] == "mvn":
         out = []
         fam = spd_family()
